@@ -238,6 +238,14 @@ class Body:
     def local_ty_str(self, l):
         return self.types[self.locals[l][0]][0]
 
+    def ty_str_op(self, op):
+        """type string of an operand (the local's type for plain locals; constants carry their type index)"""
+        if op[0] in ("c", "m"):
+            return self.local_ty_str(op[1][0]) if len(op[1]) == 1 else ""
+        if op[0] == "k" and len(op) > 3 and isinstance(op[3], int):
+            return self.types[op[3]][0]
+        return ""
+
     def local_name(self, l):
         return self.locals[l][1]
 
